@@ -1286,6 +1286,17 @@ func preprocessStylesheet(deviceMediaType, baseUrl string, stylesheetRules []pa.
 	urlFetcher utils.UrlFetcher, matcher *matcher, pageRules *[]PageRule,
 	fontConfig text.FontConfiguration, counterStyle counters.CounterStyle, ignoreImports bool,
 ) {
+	preprocessImportedStylesheet(deviceMediaType, baseUrl, stylesheetRules, urlFetcher, matcher, pageRules,
+		fontConfig, counterStyle, ignoreImports, nil)
+}
+
+// preprocessImportedStylesheet is preprocessStylesheet for a stylesheet reached through
+// the chain of @import rules [importChain] (URLs of the stylesheets being imported, outermost first).
+func preprocessImportedStylesheet(deviceMediaType, baseUrl string, stylesheetRules []pa.Compound,
+	urlFetcher utils.UrlFetcher, matcher *matcher, pageRules *[]PageRule,
+	fontConfig text.FontConfiguration, counterStyle counters.CounterStyle, ignoreImports bool,
+	importChain []string,
+) {
 	for _, rule := range stylesheetRules {
 		atRule, isAtRule := rule.(pa.AtRule)
 		if _isContentNone(rule) && (!isAtRule || utils.AsciiLower(atRule.AtKeyword) != "import") {
@@ -1354,8 +1365,13 @@ func preprocessStylesheet(deviceMediaType, baseUrl string, stylesheetRules []pa.
 				}
 				url = utils.UrlJoin(baseUrl, url, false, "@import")
 				if url != "" {
-					_, err := newCSS(utils.InputUrl(url), "", urlFetcher, false,
-						deviceMediaType, fontConfig, matcher, pageRules, counterStyle)
+					// a cycle of @import rules is not followed
+					if utils.IsIn(importChain, url) {
+						logger.WarningLogger.Printf("Circular @import of %s was ignored. \n", url)
+						continue
+					}
+					_, err := newImportedCSS(utils.InputUrl(url), "", urlFetcher, false,
+						deviceMediaType, fontConfig, matcher, pageRules, counterStyle, append(importChain[:len(importChain):len(importChain)], url))
 					if err != nil {
 						logger.WarningLogger.Printf("Failed to load stylesheet at %s : %s \n", url, err)
 					}
@@ -1372,9 +1388,9 @@ func preprocessStylesheet(deviceMediaType, baseUrl string, stylesheetRules []pa.
 					continue
 				}
 				contentRules := pa.ParseRuleList(rule.Content, false, false)
-				preprocessStylesheet(
+				preprocessImportedStylesheet(
 					deviceMediaType, baseUrl, contentRules, urlFetcher,
-					matcher, pageRules, fontConfig, counterStyle, true)
+					matcher, pageRules, fontConfig, counterStyle, true, importChain)
 			case "page":
 				data := parsePageSelectors(rule.QualifiedRule)
 				if data == nil {
